@@ -30,6 +30,8 @@ type localName struct {
 type fnNames struct {
 	Sig      string      `json:"sig,omitempty"`
 	Params   []string    `json:"params"`
+	Callees  []string    `json:"callees,omitempty"` // what the body calls (for recognising a renamed / re-nested function)
+	Results  []string    `json:"results,omitempty"`
 	FreeVars []string    `json:"freevars,omitempty"`
 	Locals   []localName `json:"locals,omitempty"`
 }
@@ -67,11 +69,14 @@ var errType = types.Universe.Lookup("error").Type()
 
 // currentNames collects the names of fn as they are now.
 func currentNames(fn *ssa.Function) *fnNames {
-	out := &fnNames{Sig: sigOf(fn)}
+	out := &fnNames{Sig: sigOf(fn), Callees: calleeSet(fn)}
 	isParam := map[string]bool{}
 	for _, p := range fn.Params {
 		out.Params = append(out.Params, p.Name())
 		isParam[p.Name()] = true
+	}
+	for i := 0; i < fn.Signature.Results().Len(); i++ {
+		out.Results = append(out.Results, fn.Signature.Results().At(i).Name())
 	}
 	for _, p := range fn.FreeVars {
 		out.FreeVars = append(out.FreeVars, p.Name())
@@ -242,8 +247,83 @@ var rekeyed = map[string]string{} // recorded key -> natural key of the function
 
 func naturalKey(fn *ssa.Function) string { return shortenPaths(fn.String()) }
 
+// sigOf: the signature by types only (parameter and result names are not part of it)
 func sigOf(fn *ssa.Function) string {
-	return shortenPaths(types.TypeString(fn.Signature, nil))
+	sig := fn.Signature
+	var b []byte
+	b = append(b, "func("...)
+	for i := 0; i < sig.Params().Len(); i++ {
+		if i > 0 {
+			b = append(b, ", "...)
+		}
+		if sig.Variadic() && i == sig.Params().Len()-1 {
+			b = append(b, "..."...)
+		}
+		b = append(b, types.TypeString(sig.Params().At(i).Type(), nil)...)
+	}
+	b = append(b, ") ("...)
+	for i := 0; i < sig.Results().Len(); i++ {
+		if i > 0 {
+			b = append(b, ", "...)
+		}
+		b = append(b, types.TypeString(sig.Results().At(i).Type(), nil)...)
+	}
+	b = append(b, ')')
+	return shortenPaths(string(b))
+}
+
+func calleeSet(fn *ssa.Function) []string {
+	set := map[string]bool{}
+	for _, b := range fn.Blocks {
+		for _, ins := range b.Instrs {
+			var c *ssa.CallCommon
+			switch x := ins.(type) {
+			case *ssa.Call:
+				c = x.Common()
+			case *ssa.Defer:
+				c = x.Common()
+			case *ssa.Go:
+				c = x.Common()
+			}
+			if c == nil {
+				continue
+			}
+			switch {
+			case c.IsInvoke():
+				set["invoke "+c.Method.Name()] = true
+			case c.StaticCallee() != nil:
+				if c.StaticCallee().Parent() == nil { // closures are named by nesting, which is what changes
+					set[shortenPaths(c.StaticCallee().String())] = true
+				}
+			default:
+				if bi, ok := c.Value.(*ssa.Builtin); ok {
+					set["builtin "+bi.Name()] = true
+				}
+			}
+		}
+	}
+	return sortedKeys(set)
+}
+
+// similar: the bodies call largely the same things (Jaccard index of the callee sets >= 1/2)
+func similarCallees(a, b []string) bool {
+	if len(a) == 0 && len(b) == 0 {
+		return true
+	}
+	in := map[string]bool{}
+	for _, x := range a {
+		in[x] = true
+	}
+	inter := 0
+	union := len(a)
+	for _, x := range b {
+		if in[x] {
+			inter++
+		} else {
+			union++
+		}
+	}
+	return 2*inter >= union
 }
 
 func keyGroup(k string) string {
@@ -320,7 +400,7 @@ func computeKeyOverrides(funcs []*ssa.Function) {
 			if stable[f] || assigned[f] || !eligibleForRekey(nk) {
 				continue
 			}
-			if keyGroup(nk) == keyGroup(k) && sigOf(f) == baseNames[k].Sig {
+			if keyGroup(nk) == keyGroup(k) && sigOf(f) == baseNames[k].Sig && similarCallees(baseNames[k].Callees, calleeSet(f)) {
 				cands = append(cands, f)
 			}
 		}
